@@ -230,4 +230,6 @@ C03_Classification ==
 \* non-vacuity probes (configured as invariants that must be VIOLATED, see checks/c03.py)
 Probe_PartialReachable == ret # "partial"
 Probe_AnyByQueuedHandoff == ~(level = "any" /\ ret = "ok" /\ stored = {} /\ retry = {})
+Probe_TimeoutReachable == ~(ret = "timeout" /\ delivered # {})
+Probe_LateHandoff == ~(ret = "timeout" /\ \E o \in Owners : o \notin delivered /\ o \in hhAcc /\ pc[o] = "sent")
 =============================================================================
